@@ -63,6 +63,11 @@ class StubSession(object):
         self.inflight = 0
         self.peak = 0
         self.errors = {}
+        self.log = []              # (virtual thread, 'enter' | 'fail' | 'done' | 'end', idx) in global (serialised) order
+
+    def note(self, kind, idx):
+        cur = self.s.current
+        self.log.append((cur.name if cur is not None else None, kind, idx))
 
     def submit(self, fn, *a, **k):
         raise RuntimeError('submit not expected')
@@ -70,8 +75,10 @@ class StubSession(object):
     def execute_async(self, statement, params=None, timeout=None, execution_profile=None, **kw):
         idx = statement
         b = self.beh[idx]
+        self.note('enter', idx)
         if b == 'raise':
             e = self.errors[idx] = Boom('sync %d' % idx)
+            self.note('fail', idx)
             raise e
         f = ResponseFuture(self, message=None, query=None, timeout=None)
         f._vidx = idx
@@ -89,7 +96,31 @@ class StubSession(object):
             f._set_final_result([('row', idx)])
         else:
             e = self.errors[idx] = Boom('async %d' % idx)
+            self.note('fail', idx)
             f._set_final_exception(e)
+
+    def first_failure_candidates(self):
+        """Statements whose failure may count as 'the first' (in completion order).
+
+        Virtual threads run one at a time, so the log is a total order.  Failure i is certainly earlier than
+        failure j when it was logged earlier and either both happened in the same thread (program order) or
+        i's thread, after i, came back to the stub (entered execute_async for another statement, returned from
+        the top-level completion that delivered i, or ended) before j happened: the executor had been handed i
+        and had moved on.  A failure with no certainly-earlier failure is a candidate; with one thread, or
+        failures that do not overlap, exactly one is left."""
+        fl = [(pos, thr, idx) for pos, (thr, kind, idx) in enumerate(self.log) if kind == 'fail']
+        cands = []
+        for pj, tj, j in fl:
+            earlier = False
+            for pi, ti, i in fl:
+                if pi >= pj:
+                    break
+                if ti == tj or any(t == ti and k in ('enter', 'done', 'end') for (t, k, _) in self.log[pi + 1:pj]):
+                    earlier = True
+                    break
+            if not earlier:
+                cands.append(j)
+        return cands
 
 
 _RealFuture = cc.Future
@@ -134,6 +165,7 @@ def harness(params, prefix, part):
                 if isinstance(e, sched.Abort):
                     raise
                 out['escaped'] = e
+            sess.note('end', None)
 
         later = [i for i, b in enumerate(beh) if b.startswith('later')]
 
@@ -152,6 +184,8 @@ def harness(params, prefix, part):
                             if isinstance(e, sched.Abort):
                                 raise
                             out.setdefault('completer_exc', []).append(e)
+                        sess.note('done', i)
+                sess.note('end', None)
             return body
         s.spawn(client, 'client')
         if later:
@@ -202,8 +236,25 @@ def harness(params, prefix, part):
     if raised is not None:
         if not (ff and fails):
             part.violation('C32/raised-unexpectedly/%s' % variant, '%r raised; params %r' % (raised, params), data)
-        elif raised not in sess.errors.values():
+        elif not any(raised is e for e in sess.errors.values()):
             part.violation('C32/raised-unknown/%s' % variant, '%r is not one of the statements\' failures; params %r' % (raised, params), data)
+        else:
+            # WHICH failure: the first one.  list / async-future: first in completion order (every failure that is not
+            # certainly later than another one is acceptable).  generator: results are consumed in input order, so the
+            # first failure the caller meets is the lowest failed position; the first in completion order is accepted too.
+            got = [i for i, e in sess.errors.items() if e is raised][0]
+            cands = sess.first_failure_candidates()
+            allowed = set(cands)
+            if variant == 'gen':
+                allowed.add(min(sess.errors))
+            part.count('first_failure_judged')
+            if len(allowed) == 1:
+                part.count('first_failure_unique')
+            if got not in allowed:
+                order = [(t, i) for (t, k, i) in sess.log if k == 'fail']
+                part.violation('C32/fail-fast-not-first/%s/%s' % (variant, cls),
+                               'raised the failure of statement %d, but the first failure is %s (failures in order (thread, statement): %r); params %r'
+                               % (got, ' or '.join(str(c) for c in sorted(allowed)), order, params), data)
     elif res is not None:
         if ff and fails and variant != 'async' or (ff and fails and variant == 'async'):
             # fail fast must raise when some statement failed
